@@ -8,6 +8,7 @@
     B <portable> <cmd> <setup> <probe> <arg>* ( | <arg>* )*   shell-level spellings (no model: observation = their number)
     E <portable> <cmd> <setup> <probe> <arg>*     shell-level rejection (no model)
     G <optstring> <arg>*                          `while getopts optstring v arg…` run to the end
+    J <step> ( ; <step> )*                        getopts sessions in ONE shell: `S <i|a|l> <optstring> <limit|*> <arg>*` | `R <value>`
     T <portable> <names> <arg>*                   set/syntax.rs `parse`
     H <names> <argv0> <arg>*                      startup/args.rs `parse` (the shell's own command line)
     K <portable> <sigterm> <names> <arg>*         kill/syntax.rs `parse`
@@ -20,6 +21,7 @@ import YashModel.Common.Proto
 import YashModel.Args.Model
 import YashModel.Args.Spec
 import YashModel.Args.Getopts
+import YashModel.Args.GetoptsHistory
 import YashModel.Args.Bespoke
 import YashModel.Args.BespokeSpec
 open YashModel YashModel.Args YashModel.Proto
@@ -87,6 +89,14 @@ def showView : View → String
   | .ok (os, ops) =>
     let o := os.map fun (s, a) => s!"{showSpec s}={showOptStr a}"
     s!"ok [{";".intercalate o}] [{",".intercalate (ops.map encChars)}]"
+
+/-- split a token list at `;` -/
+def splitSemi (ts : List String) : List (List String) :=
+  let rec go (ts : List String) (cur : List String) (acc : List (List String)) : List (List String) :=
+    match ts with
+    | [] => (cur.reverse :: acc).reverse
+    | t :: r => if t = ";" then go r [] (cur.reverse :: acc) else go r (t :: cur) acc
+  go ts [] []
 
 /-- split a token list at `|` -/
 def splitBar (ts : List String) : List (List String) :=
@@ -242,6 +252,54 @@ def specCompare (portable : Bool) (a b : String) : String :=
     else s!"FAIL:separated-spelling-gives {b}"
   a ++ "\t" ++ verdict
 
+/-! getopts histories -/
+
+open YashModel.Args.Getopts in
+def parseHStep (ts : List String) : Option HStep :=
+  match ts with
+  | ["R", v] => do pure (.assign (← decChars v))
+  | "S" :: sp :: spec :: lim :: vec => do
+    let sp ← match sp with | "i" => some Spelling.implicit | "a" => some .dollarAt | "l" => some .literal | _ => none
+    let lim ← if lim = "*" then some none else lim.toNat?.map some
+    pure (.session sp (← decChars spec) (← vec.mapM decChars) lim)
+  | _ => none
+
+def showRawStr (s : List Char) : String := if s.isEmpty then "-" else String.ofList s
+
+open YashModel.Args.Getopts in
+def showStepObs (o : StepObs) : String :=
+  let cs := o.calls.map fun c => s!"{encChars [c.var]},{showOptStr c.optarg},{showRawStr c.optind}"
+  let fin := match o.fin with | some n => s!"st{n}" | none => "part"
+  let v := match o.var with | some c => encChars [c] | none => "~"
+  s!"[{";".intercalate cs}] fin={fin} now={v},{showOptStr o.optarg},{showRawStr o.optind}"
+
+open YashModel.Args.Getopts in
+/-- Spec: every complete session that starts with `OPTIND=1` behaves as in a fresh shell, in each spelling -/
+def historyVerdict (steps : List HStep) : String :=
+  let rec go (env : GEnv) (steps : List HStep) (checked : Nat) : String :=
+    match steps with
+    | [] => if checked = 0 then "-" else "ok"
+    | .assign v :: rest => go { env with optind := v } rest checked
+    | .session sp spec vec limit :: rest =>
+      let (o, env') := runSession env sp spec vec limit
+      if limit.isNone && env.optind == ['1'] && !(sp == .literal && vec.isEmpty) then
+        let sps := [Spelling.implicit, .dollarAt] ++ (if vec.isEmpty then [] else [.literal])
+        if sps.all (fun s => showStepObs (freshObs s spec vec) == showStepObs o) then go env' rest (checked + 1)
+        else s!"FAIL:session differs from a fresh shell: {showStepObs (freshObs sp spec vec)}"
+      else go env' rest checked
+  go freshEnv steps 0
+
+open YashModel.Args.Getopts in
+def runHistoryLine (ts : List String) : String :=
+  match (splitSemi ts).mapM parseHStep with
+  | none => "bad-case\t-"
+  | some steps =>
+    let obs := runHistory freshEnv steps
+    let shown := obs.map fun o => match o with | none => "r" | some o => showStepObs o
+    let diag := (obs.filterMap id).foldl (fun n o => n + (o.calls.filter (·.diag)).length) 0
+    let err := ((obs.filterMap id).filter (fun o => o.fin == some 2)).length
+    s!"{" | ".intercalate shown} diag={diag} err={err}" ++ "\t" ++ historyVerdict steps
+
 def runLine (line : String) : String :=
   match words line with
   | "P" :: m :: sp :: args =>
@@ -288,6 +346,7 @@ def runLine (line : String) : String :=
      | _, _, _, _ => "bad-case\t-")
   | "B" :: _p :: _cmd :: _setup :: _probe :: rest => s!"n={(splitBar rest).length}\t-"
   | "E" :: _p :: _cmd :: _setup :: _probe :: _ => "n=1\t-"
+  | "J" :: ts => runHistoryLine ts
   | "G" :: sp :: args =>
     (match decChars sp, args.mapM decChars with
      | some spec, some args => runGetopts spec args
